@@ -31,7 +31,7 @@ def g1_pairs(tier):
 def g1_stack(tier):
     """Two-nucleotide stacking lattice: rise x lateral offset x tilt x twist x face."""
     q = tier == "quick"
-    combos = COMBOS_Q[:5] if q else COMBOS_T
+    combos = (COMBOS_Q[:5] + [("G", "T"), ("T", "T")]) if q else COMBOS_T
     rises = (2.8, 3.4, 4.0, 4.6, 5.2, 5.8, 6.4, 7.0)
     lats = (0.0, 1.5, 3.0, 4.5, 6.0) if q else (0.0, 1.0, 2.0, 3.0, 4.0, 5.0, 6.0)
     tilts = (0.0, 20.0, 34.0, 36.0, 60.0) if q else (0.0, 10.0, 20.0, 30.0, 34.0, 36.0, 45.0, 60.0)
@@ -92,6 +92,16 @@ def two_model_cases(source, stride, offset):
         if (a["l1"], a["l2"]) == (b["l1"], b["l2"]):
             # model numbers of the two models: 1 and 2, or 0 and 1 (zero-based ensembles), or 5 and 2 (not starting at 1, not ascending)
             yield dict(g=4, m1=a, m2=b, model_numbers=[(1, 2), (0, 1), (5, 2)][k % 3])
+
+
+def near_threshold_cases():
+    """The committed list of two-nucleotide placements whose smallest decision margin is 2e-5..2e-4 (mc/data/near_threshold.json): built in memory at
+    full precision, so that every decision must be taken on the actual, unrounded coordinates."""
+    import json
+
+    with open(os.path.join(os.path.dirname(os.path.dirname(os.path.abspath(__file__))), "data", "near_threshold.json")) as f:
+        for c in json.load(f):
+            yield {k: v for k, v in c.items() if k != "margin"}
 
 
 def structure_of(case):
@@ -172,6 +182,11 @@ def variant(structure, kind, param=None):
     cube = enum3d.cube_rotations()
     res = []
     k = 0
+    shift = 0
+    if kind == "renumber":
+        # order-preserving renumbering: param 'negative' puts every residue number below zero, 'across-9999' makes the numbers run from 9990 upwards
+        nums = [r.number for r in structure.residues]
+        shift = (-max(nums) - 1) if param == "negative" else (9990 - min(nums))
     for ri, r in enumerate(structure.residues):
         if kind == "drop-residue" and ri == param:
             continue
@@ -188,7 +203,14 @@ def variant(structure, kind, param=None):
             elif kind == "translate":
                 xyz = xyz + np.array(param)
             atoms.append(Atom(a.entity_id, a.label, a.auth, a.model, a.name, float(xyz[0]), float(xyz[1]), float(xyz[2]), a.occupancy))
-        if atoms:
+        if atoms and shift:
+            from rnapolis.common import ResidueAuth, ResidueLabel
+
+            auth = ResidueAuth(r.auth.chain, r.auth.number + shift, r.auth.icode, r.auth.name) if r.auth is not None else None
+            label = ResidueLabel(r.label.chain, r.label.number + shift, r.label.name) if (r.label is not None and r.auth is None) else r.label
+            atoms = [Atom(a.entity_id, label, auth, a.model, a.name, a.x, a.y, a.z, a.occupancy) for a in atoms]
+            res.append(Residue3D(label, auth, r.model, r.one_letter_name, tuple(atoms)))
+        elif atoms:
             res.append(Residue3D(r.label, r.auth, r.model, r.one_letter_name, tuple(atoms)))
     if kind == "reverse-listing":
         res = res[::-1]
@@ -215,6 +237,8 @@ def corpus_cases(tier, files_quick, files_thorough, rotations=True):
             yield dict(g=3, file=name, kind="jitter", param=amp)
         yield dict(g=3, file=name, kind="reverse-listing")
         yield dict(g=3, file=name, kind="second-half-first")
+        yield dict(g=3, file=name, kind="renumber", param="negative")
+        yield dict(g=3, file=name, kind="renumber", param="across-9999")
         if rotations:
             for m in range(1, 24):
                 yield dict(g=3, file=name, kind="rotate", param=m)
